@@ -88,7 +88,9 @@ ADDED3 = {
            'in order (all subsets of <= 3 sub-folders; replayed on a real directory); search_in_file_ios: exactly the '
            'passing files in scan order until a limit.',
     'C20': 'Importer._sys_path_with_modifications: the memoised effective path is never mutated in place (ownership '
-           'frame obligation); detected sys.path edits are appended for the lookup only.',
+           'frame obligation); detected sys.path edits are appended for the lookup only. Project.__init__: every '
+           'setting is stored as given (sys_path / added_sys_path entry by entry in order as str, environment_path as '
+           'str, both flags, absolute path) - what save() dumps and load() = cls(**data) restores; two argument shapes.',
 }
 LIBRARY_NOTE = (' A contract whose function can no longer be brought into the subset is not silently undecided: its '
                 'executable form is evaluated on the real function over its witness library, a failing input is a '
